@@ -155,7 +155,10 @@ def cycle(rec, pvl, t0, src, wit0, rng):
                           {**feats, "exc": type(e).__name__}, wit, repr(e)[:200])
             continue
         if t1 != t2:
-            same = "{" in t1 and set_order_insensitive(t1) == set_order_insensitive(t2)
+            # allowed: the elements of a set in another order (and the line
+            # breaks that moves); not allowed: the same order laid out differently
+            same = "{" in t1 and set_order_insensitive(t1) == set_order_insensitive(t2) \
+                and re.sub(r"\s+", " ", t1) != re.sub(r"\s+", " ", t2)
             if not same:
                 wit["t2"] = t2[:1500]
                 rec.violation(CHECK, dialect, "second-dump-differs",
